@@ -11,6 +11,7 @@ constructors over a Go map for EVERY order `mapOrder` in which `range` may visit
 import CtyModel.Generated.ConsFns
 import CtyModel.Lemmas.SetFnsTie
 import CtyModel.Lemmas.d06Cons
+import CtyModel.Lemmas.StdOblBase
 set_option linter.unusedSimpArgs false
 set_option linter.unusedVariables false
 namespace CtyModel
@@ -477,6 +478,136 @@ theorem SetValFromValueSet_eq (ord : SetGo.GoMap Payload → SetGo.GoMap Payload
     (ety : Ty) (R : Rules Payload) (s : SetImpl Payload) (ha : SetImpl.Asc s.buckets) :
     SetValFromValueSet ord ⟨ety, ⟨s.buckets, R⟩⟩ = .ok ⟨.set ety, ifaceSet ⟨(SetImpl.copy s).buckets, R⟩⟩ := by
   simp only [SetValFromValueSet, SetFnsTie.Set_Copy_eq ord ho R s ha, Res.bind]
+
+/-! ### the order of a Go map `range` is immaterial — when no two keys collide after normalisation
+
+`rawMap[NormalizeString(key)] = val.v`: two raw keys with one normal form write the same entry, the later write wins, and
+which one is later is Go's choice (the recorded C20 finding `constructor-key-normalization-collision`). -/
+
+theorem putKV_len {α} (k : String) (x : α) : ∀ (ns : List String) (ys : List α), ns.length = ys.length →
+    (D06.putKV k x ns ys).1.length = (D06.putKV k x ns ys).2.length
+  | [], [], _ => by simp [D06.putKV]
+  | [], _ :: _, h => by simp at h
+  | _ :: _, [], h => by simp at h
+  | n :: ns, y :: ys, h => by
+    have ih := putKV_len k x ns ys (by simpa using h)
+    simp only [D06.putKV]
+    grind
+
+/-- writes to two different keys commute -/
+theorem putKV_comm {α} (k1 k2 : String) (x1 x2 : α) (hne : k1 ≠ k2) : ∀ (ns : List String) (ys : List α),
+    ns.length = ys.length →
+    D06.putKV k1 x1 (D06.putKV k2 x2 ns ys).1 (D06.putKV k2 x2 ns ys).2 =
+    D06.putKV k2 x2 (D06.putKV k1 x1 ns ys).1 (D06.putKV k1 x1 ns ys).2
+  | [], [], _ => by
+    simp only [D06.putKV]
+    grind
+  | [], _ :: _, h => by simp at h
+  | _ :: _, [], h => by simp at h
+  | n :: ns, y :: ys, h => by
+    have ih := putKV_comm k1 k2 x1 x2 hne ns ys (by simpa using h)
+    simp only [D06.putKV]
+    grind [D06.putKV]
+
+/-- no two entries have the same key after normalisation -/
+def NormDistinct {α} (norm : String → String) (l : List (String × α)) : Prop :=
+  (l.map fun kv => norm kv.1).Pairwise (· ≠ ·)
+
+theorem normDistinct_perm {α} (norm : String → String) {l1 l2 : List (String × α)} (hp : l1.Perm l2)
+    (h : NormDistinct norm l1) : NormDistinct norm l2 := by
+  unfold NormDistinct at h ⊢
+  exact ((hp.map fun kv => norm kv.1).pairwise_iff (fun {a b} (hab : a ≠ b) => hab.symm)).mp h
+
+theorem buildFrom_perm {α} (norm : String → String) {l1 l2 : List (String × α)} (hp : l1.Perm l2) :
+    NormDistinct norm l1 → ∀ acc : List String × List α, acc.1.length = acc.2.length →
+    D06.buildFrom norm (l1.map (·.1)) (l1.map (·.2)) acc = D06.buildFrom norm (l2.map (·.1)) (l2.map (·.2)) acc := by
+  induction hp with
+  | nil => intros; rfl
+  | cons x _ ih =>
+    intro hd acc hl
+    simp only [List.map_cons, D06.buildFrom]
+    exact ih (List.Pairwise.of_cons (by simpa [NormDistinct] using hd)) _ (putKV_len _ _ _ _ hl)
+  | swap x y l =>
+    intro hd acc hl
+    have hne : norm y.1 ≠ norm x.1 := by
+      simp only [NormDistinct, List.map_cons, List.pairwise_cons] at hd
+      exact hd.1 _ (by simp)
+    simp only [List.map_cons, D06.buildFrom]
+    rw [putKV_comm (norm x.1) (norm y.1) x.2 y.2 (Ne.symm hne) acc.1 acc.2 hl]
+  | trans h1 _ ih1 ih2 =>
+    intro hd acc hl
+    rw [ih1 hd acc hl, ih2 (normDistinct_perm norm h1 hd) acc hl]
+
+/-- `cty.ObjectVal` on attribute names that stay pairwise different after normalisation: the result does not depend on the
+order in which `range` visits the map — it is `D06.objectValN` on the entries in ANY fixed order -/
+theorem ObjectVal_order_immaterial (ord : List (String × Value) → List (String × Value)) (ho : ConsOrder ord)
+    (norm : String → String) (attrs : List (String × Value)) (hd : NormDistinct norm attrs) :
+    ObjectVal ord norm attrs = .ok (D06.objectValN norm (keysOf attrs) (valsOf attrs)) := by
+  rw [ObjectVal_eq]
+  unfold D06.objectValN D06.buildMap keysOf valsOf
+  rw [buildFrom_perm norm (ho attrs) (normDistinct_perm norm (ho attrs).symm hd) ([], []) rfl]
+
+/-- the same for the payload of `cty.MapVal` (its element type is computed from the values in visiting order) -/
+theorem MapVal_keys_order_immaterial (ord : List (String × Value) → List (String × Value)) (ho : ConsOrder ord)
+    (norm : String → String) (vals : List (String × Value)) (hd : NormDistinct norm vals) :
+    D06.buildMap norm (keysOf (ord vals)) (valsOf (ord vals)) = D06.buildMap norm (keysOf vals) (valsOf vals) := by
+  unfold D06.buildMap keysOf valsOf
+  exact buildFrom_perm norm (ho vals) (normDistinct_perm norm (ho vals).symm hd) ([], []) rfl
+
+/-- … and FALSE without it: "é" decomposed and precomposed are one attribute after normalisation, and the visiting order
+decides whose value (and type) the object gets -/
+def collideNorm (s : String) : String := if s = "é" then "é" else s
+def collideAttrs : List (String × Value) := [("é", ⟨.string, .s "1"⟩), ("é", ⟨.bool, .b true⟩)]
+def collideVals : List (String × Value) := [("é", ⟨.string, .s "1"⟩), ("é", ⟨.string, .s "2"⟩)]
+
+theorem ObjectVal_order_counterexample :
+    (match ObjectVal (fun m => m) collideNorm collideAttrs, ObjectVal (fun m => m.reverse) collideNorm collideAttrs with
+      | .ok ⟨.object ["é"] [.bool] _, .smap ["é"] [.b true]⟩,
+        .ok ⟨.object ["é"] [.string] _, .smap ["é"] [.s "1"]⟩ => true
+      | _, _ => false) = true ∧
+    (match MapVal (fun m => m) collideNorm collideVals, MapVal (fun m => m.reverse) collideNorm collideVals with
+      | .ok ⟨.map .string, .smap ["é"] [.s "2"]⟩, .ok ⟨.map .string, .smap ["é"] [.s "1"]⟩ => true
+      | _, _ => false) = true := by
+  decide
+
+/-! ### what the `SetVal` tie assumes of its members holds of well-formed values -/
+
+theorem marksFaithful_of_markerWF {w : Value} (h : w.v.markerWF = true) : MarksFaithful w := by
+  unfold MarksFaithful
+  cases hc : w.containsMarked
+  · have : w.marksDeep = [] := Payload.marksDeep_of_not_containsMarked _ hc
+    simp [this]
+  · cases hm : w.marksDeep with
+    | nil =>
+      have := Payload.not_containsMarked_of_marksDeep_nil w.v h hm
+      simp [Value.containsMarked, this] at hc
+    | cons _ _ => simp
+
+theorem marksFaithful_of_WF {nfc : String → Bool} {w : Value} (h : w.WF nfc = true) : MarksFaithful w :=
+  marksFaithful_of_markerWF (Fn.markerWF_of_WF h)
+
+/-! ### outcomes up to the panic text -/
+
+theorem ok_of_cls {β} {a b : Res β} (h : cls a = cls b) {r : β} (ha : a = .ok r) : b = .ok r := by
+  subst ha; cases b <;> simp [cls] at h ⊢; exact h.symm
+
+theorem isPanic_of_cls {β} {a b : Res β} (h : cls a = cls b) : a.isPanic = b.isPanic := by
+  cases a <;> cases b <;> simp [cls] at h <;> rfl
+
+theorem isPanic_listVal (ws : List Value) : (Gocty.listVal ws).isPanic = (ws.isEmpty || !Gocty.canListVal ws) := by
+  unfold Gocty.listVal Gocty.canListVal
+  split
+  · simp [*, Res.isPanic]
+  · rename_i h
+    cases Gocty.elemTypeOf Ty.dyn ws <;> simp [h, Res.isPanic]
+
+theorem isPanic_mapValN (norm : String → String) (ks : List String) (ws : List Value) :
+    (D06.mapValN norm ks ws).isPanic = (ws.isEmpty || !Gocty.canListVal ws) := by
+  unfold D06.mapValN Gocty.canListVal
+  split
+  · simp [*, Res.isPanic]
+  · rename_i h
+    cases Gocty.elemTypeOf Ty.dyn ws <;> simp [h, Res.isPanic]
 
 end ConsTie
 end CtyModel
